@@ -131,6 +131,7 @@ type objInfo struct {
 	writes   []string // receiver fields the methods may write (spec writes:Type.field:...)
 	concrete bool     // the state is not abstract: a named map type of another package
 	methods  map[string]*fnType
+	seqRes   map[string]bool // iterator methods (result iter.Seq[X], or only a yield func(X) bool parameter): the list of the values they yield
 	selfRes  map[string]bool // methods whose only result is a pointer to the object's own struct (the receiver handed back): no result
 }
 
@@ -322,6 +323,53 @@ func (c *fnCtx) objMethodType(fv *fnVar, m string, at ast.Node) *fnType {
 						}
 					}
 				}
+				objRes := map[int]*fnType{}
+				if r := typ.Results; r != nil {
+					var fl []*ast.Field
+					changed := false
+					for i, f := range r.List {
+						if st, ok := f.Type.(*ast.StarExpr); ok && len(f.Names) == 0 && len(r.List) == r.NumFields() {
+							if bb, _ := baseAndArgs(st.X); bb != nil {
+								if id, ok := bb.(*ast.Ident); ok {
+									for _, o2 := range c.objs {
+										if o2 != o && o2.iface == nil && o2.pkg == o.pkg && o2.tname == id.Name && !o2.concrete {
+											// a pointer to the struct of ANOTHER object field of the receiver
+											// (Tree.Cursor(key) *Cursor[T] with it.c a *stree.Cursor): an object
+											// of that field's kind
+											objRes[i] = o2.typ
+										}
+									}
+								}
+							}
+						}
+						if objRes[i] != nil {
+							fl = append(fl, &ast.Field{Type: ast.NewIdent("bool")})
+							changed = true
+						} else {
+							fl = append(fl, f)
+						}
+					}
+					if changed {
+						cp := *typ
+						cp.Results = &ast.FieldList{List: fl}
+						typ = &cp
+					}
+				}
+				defer func() {
+					for i, t := range objRes {
+						if ft != nil && i < len(ft.res) {
+							ft.res[i] = t
+						}
+					}
+				}()
+				if it := iterMethodType(typ); it != nil {
+					// an iterator method: represented by the list of the values it yields
+					typ = it
+					if o.seqRes == nil {
+						o.seqRes = map[string]bool{}
+					}
+					o.seqRes[m] = true
+				}
 				c.withTypeArgs(names, o.targs, at, func() { ft = c.goType(typ) })
 			}
 		}()
@@ -345,6 +393,12 @@ func (c *fnCtx) objMethodType(fv *fnVar, m string, at ast.Node) *fnType {
 		case "int", "byte", "bool", "string", "elem", "struct", "unit", "u64", "err":
 		case "map":
 			// handed back by content; which map object it is, is not represented
+		case "obj":
+			// an object of the kind of another object field (see above): only stored into that field
+		case "slice":
+			if !o.seqRes[m] {
+				c.lostAt(at, "method %s.%s with a result of type %s", o.field, m, p.k)
+			}
 		default:
 			c.lostAt(at, "method %s.%s with a result of type %s", o.field, m, p.k)
 		}
@@ -454,6 +508,13 @@ func (c *fnCtx) typeKnownExtra(key string) {
 		mention = []*fnType{kt}
 	case strings.HasPrefix(key, "objnil:"):
 		typ = "bool"
+	case strings.HasPrefix(key, "objnilval:"):
+		fv := c.fields[strings.TrimPrefix(key, "objnilval:")]
+		if fv == nil {
+			return
+		}
+		typ = fv.typ.coq()
+		mention = []*fnType{fv.typ}
 	case strings.HasPrefix(key, "obj:"):
 		fm := strings.TrimPrefix(key, "obj:")
 		i := strings.IndexByte(fm, '.')
